@@ -32,7 +32,7 @@ try:
     for gname, gen in replay_more.GENERATORS.items():
         ok, detail, ran = replay_more.replay_generated(root, gen([]))
         print(gname, "generated battery:", ran, "runs; mismatches:", ok)
-        if ok or ok is None:
+        if ok or ok is None or "were dropped" in detail:
             bad += 1
             print(detail)
 finally:
